@@ -22,6 +22,7 @@ from checks import c11gen as G  # noqa: E402
 
 GEN = os.path.join(core.LEAN_DIR, "UtapModel", "Gen", "EffectGen.lean")
 MODULE = "UtapModel.Props.C11"
+MAX_REPORTED = 20      # distinct failing shapes written as replays per run (all are counted in the evidence)
 PID = "C11"
 
 POST_PRE = [("%s++", "post++"), ("%s--", "post--"), ("++%s", "pre++"), ("--%s", "pre--")]
@@ -55,18 +56,22 @@ def gen_matrix(ctx):
     targets = list(G.TARGETS)
     stmt_forms = list(G.STMT_FORMS)
     full = ctx.thorough
+    core_ctx = {"guard", "invariant", "sync-index", "probability", "select-domain", "init-global", "init-template", "init-local",
+                "array-size", "range-bound", "typedef-range-bound", "inst-arg", "quantified-body-guard", "quantified-body-exists",
+                "quantified-body-sum", "quantified-body-function", "assertion", "query-AG", "query-EF", "query-leadsto", "query-quantified"}
     for cn, cx in ctxs.items():
+        light = (cn not in core_ctx) and not full      # the further query forms get a sample of the matrix in the quick tier
         # A. direct writes: every operator on `w`; every target with `=` and one random operator
         for op in all_ops:
             add(cn, direct_write("w", op), "", "reject", "ctx=%s/direct/%s/w" % (cn, op))
         add(cn, twin_expr(cx), "", "accept", "ctx=%s/twin/direct" % cn)
-        for t in targets[1:]:
+        for t in (targets[1:] if not light else r.sample(targets[1:], 2)):
             ops = all_ops if full else ["=", r.choice(all_ops[1:])]
             for op in ops:
                 add(cn, direct_write(t, op), "", "reject", "ctx=%s/direct/%s/%s" % (cn, op, t))
             add(cn, twin_expr(cx, "(%s + 1)" % G.TARGETS[t]), "", "accept", "ctx=%s/twin/direct-target/%s" % (cn, t))
         # B. call of a writer: the write sits in every statement form
-        for form in stmt_forms:
+        for form in (stmt_forms if not light else r.sample(stmt_forms, 5)):
             wes = G.WRITE_EXPRS if full else [G.WRITE_EXPRS[0], r.choice(G.WRITE_EXPRS[1:])]
             for we in wes:
                 add(cn, "wr()", G.writer_function("wr", form, we, False), "reject", "ctx=%s/call/%s/%s" % (cn, form, we))
@@ -74,7 +79,7 @@ def gen_matrix(ctx):
             pre = G.writer_function("wr", form, tw, form != "local-init")
             add(cn, "wr()", pre, "accept", "ctx=%s/twin/call/%s" % (cn, form))
         # C. call chains of depth 1..4, the inner call placed in a random statement form
-        for depth in (1, 2, 3, 4):
+        for depth in ((1, 2, 3, 4) if not light else (r.choice([1, 2]), r.choice([3, 4]))):
             for twin in (False, True):
                 form0 = r.choice(stmt_forms)
                 tw0 = "loc + 1" if (twin and form0 == "local-init") else "w = 1"
@@ -86,9 +91,17 @@ def gen_matrix(ctx):
                 add(cn, "f%d()" % depth, "\n".join(pre), "accept" if twin else "reject",
                     "ctx=%s/%s/chain-depth-%d" % (cn, "twin" if twin else "call", depth))
         # D. write through a non-constant reference parameter (directly, through a chain, array / struct reference)
-        for shape, pre, e, tpre, te in ref_forms(r, cx):
+        rf = ref_forms(r, cx)
+        for shape, pre, e, tpre, te in (rf if not light else r.sample(rf, 3)):
             add(cn, e, pre, "reject", "ctx=%s/ref/%s" % (cn, shape))
             add(cn, te, tpre, "accept", "ctx=%s/twin/ref/%s" % (cn, shape))
+    # E. controls: the same writes where side effects are allowed (update label, function body) are accepted
+    wrf = G.writer_function("wr", "nested-loops", "w = 1", False)
+    for i, asg in enumerate(["w = 1", "w++, x = w", "arr[x] = wr()", "st.a += 1, wr()", "x = (bb ? w : x) = 2"]):
+        n[0] += 1
+        kw = dict(gdecl=G.BASE_DECL + wrf + "\n", assign=asg)
+        text, kind = (G.xml_model(**kw), "xml") if i % 2 else (G.xta_model(**kw), "xta")
+        cases.append(G.Case("m%d" % n[0], kind, text, [], "accept", [], "control/update-label/%s" % asg))
     return cases
 
 
@@ -403,7 +416,7 @@ def run(ctx):
         tie_error = str(ex)
         ctx.log("translator failed:", ex)
     # 2 prove -------------------------------------------------------------------------------------------------------
-    ok, log = (False, "translation failed: %s" % tie_error) if tie_error else ctx.prove(MODULE, ["drv_c11"])
+    ok, log = (False, "translation failed: %s" % tie_error) if tie_error else G.prove(ctx, core, MODULE, ["drv_c11"])
     broken = []
     if tie_error:
         cov.update({"obligations": len(core.theorems_of(MODULE)), "discharged": 0, "checker_cmd": "n/a (translation failed)",
@@ -432,12 +445,14 @@ def run(ctx):
         dist[top] = dist.get(top, 0) + 1
         if c.expect == "reject" and not any(a in errs for a in c.allowed):
             nviol += 1
-            ctx.finding("accepted-write:" + shape_key(c.shape),
+            if nviol <= MAX_REPORTED:
+                ctx.finding("accepted-write:" + shape_key(c.shape),
                         "a side-effect-free context containing a (transitive) write is accepted (diagnostics: %r)" % errs,
                         dict(c.replay_obj(), observed_diagnostics=errs))
         elif c.expect == "accept" and (errs or rec["exc"]):
             nviol += 1
-            ctx.finding("rejected-twin:" + shape_key(c.shape),
+            if nviol <= MAX_REPORTED:
+                ctx.finding("rejected-twin:" + shape_key(c.shape),
                         "the write-free twin is rejected: %r" % (errs or rec["exc"]), dict(c.replay_obj(), observed_diagnostics=errs))
         if len(samples) < 4 and c.expect and c.cid.endswith("7"):
             samples.append({"shape": c.shape, "expect": c.expect, "diagnostics": errs})
